@@ -77,7 +77,7 @@ func vfC20Exec(v *vfT, c vfC20Case) (branching []int) {
 	})
 	// the monitor filter in vfGates passes everything when no object is watched; gate filter needs objects
 	var dA, dB *DataChannel
-	var opens, closes atomic.Int32
+	var opens, closes, lateCloses atomic.Int32
 	remoteCh := make(chan *DataChannel, 4)
 	pcB.OnDataChannel(func(d *DataChannel) {
 		wmu.Lock()
@@ -115,7 +115,9 @@ func vfC20Exec(v *vfT, c vfC20Case) (branching []int) {
 			v.Skip("pair did not connect (inconclusive)")
 		}
 	} else {
-		if !vfPairWait(10*time.Second, func() bool { return pcA.SCTP().State() == SCTPTransportStateConnected && pcB.SCTP().State() == SCTPTransportStateConnected }) {
+		if !vfPairWait(10*time.Second, func() bool {
+			return pcA.SCTP().State() == SCTPTransportStateConnected && pcB.SCTP().State() == SCTPTransportStateConnected
+		}) {
 			v.Skip("pair did not connect (inconclusive)")
 		}
 		dA = mk("subject")
@@ -208,6 +210,10 @@ func vfC20Exec(v *vfT, c vfC20Case) (branching []int) {
 					actors.Go(a, func() { _ = dB.Close() })
 				case "PC":
 					actors.Go(a, func() { _ = pcA.Close() })
+				case "OC":
+					// a second registration, made at whatever moment the schedule puts it (possibly while
+					// the channel already reads closed and its read loop has not reported the close yet)
+					actors.Go(a, func() { dA.OnClose(func() { lateCloses.Add(1) }) })
 				}
 			})
 		}
@@ -277,6 +283,12 @@ func vfC20Exec(v *vfT, c vfC20Case) (branching []int) {
 	if n := opens.Load(); n > 1 {
 		v.Violation("C20/onopen-twice", "OnOpen handler ran %d times for one registration; trace %v", n, trace)
 	}
+	if n := lateCloses.Load(); n > 1 {
+		v.Violation("C20/onclose-twice/late-registration", "an OnClose handler registered during the scenario ran %d times for its one registration; trace %v", n, trace)
+	}
+	if started["OC"] {
+		v.Label("late-onclose-registration")
+	}
 	if n := closes.Load(); n > 1 {
 		v.Violation("C20/onclose-twice", "OnClose handler ran %d times for one registration; trace %v", n, trace)
 	}
@@ -298,11 +310,12 @@ func vfC20BackwardKind(s string) string {
 }
 
 var vfC20Opts = vfOpts{
-	Rule: "schedules on a connected loopback pair: actors drawn from local Close (twice), GracefulClose, remote Close, PeerConnection.Close, plus the gated opening path of a channel created before signalling; the controller orders actor starts and goroutines parked at the four yield points; non-trivial = an actor is started while another goroutine is parked inside a check-then-set window",
+	Rule:        "schedules on a connected loopback pair: actors drawn from local Close (twice), GracefulClose, remote Close, PeerConnection.Close, a late OnClose registration, plus the gated opening path of a channel created before signalling; the controller orders actor starts and goroutines parked at the four yield points; non-trivial = an actor is started while another goroutine is parked inside a check-then-set window",
 	Assumptions: []string{"readyState stores are observed by the dc.state monitor on the storing goroutine (value before, value to be stored)", "interleavings explored at the placed yield points only", "a pair that fails to connect within the watchdog is discarded as inconclusive"},
 }
 
 var vfC20ActorSets = [][]string{
+	{"PC", "OC"}, {"LC", "OC"}, {"RC", "OC", "PC"},
 	{"LC", "RC"}, {"LC", "PC"}, {"RC", "PC"}, {"LC", "LC2"}, {"LG", "RC"}, {"LC", "RC", "PC"}, {"LC"}, {"RC"}, {"LG", "PC"},
 }
 
